@@ -20,6 +20,7 @@
 #include "lpc/compiler.h"
 #include "lpc/identifier.h"
 #include "lpc/program.h"
+#include "scratchpad.h"
 
 extern int num_parse_error;
 extern char *inherit_file;
@@ -38,6 +39,7 @@ static int nperm;
 #define MAXNAMES 24
 static char names[MAXNAMES][48];
 static int nnames;
+static int nlarge;		/* malloc'ed scratchpad blocks alive (counted from the trace) */
 static int collect_names;	/* only while a fuzzed source is compiled */
 
 static void note_name (const char *n, int isperm)
@@ -94,17 +96,24 @@ static void perm_first_sight (ident_hash_elem_t * ihe, long sem_now)
 
 static long before_local = 0, before_sem = 0, pre_field = 0, pre_sem = 0;
 static long nev = 0;
-#define MAXEV 60000
+#define MAXEV 150000
 
 static void c02_trace (const char *ev, long cursor, long size)
 {
   ident_hash_elem_t *subj = (ident_hash_elem_t *) verif_compiler_trace_subject;
-  if (++nev > MAXEV)
+  static int truncating;
+  if (nev == 0)
+    truncating = 0;
+  /* very long traces are cut, but only at the start of an operation (mem.req), never inside one */
+  if (++nev > MAXEV && !truncating && !strcmp (ev, "mem.req"))
     {
-      if (nev == MAXEV + 1)
-        vh_out ("ev-truncated");
-      /* keep the end-of-compile events so that the replay stays meaningful */
-      if (strncmp (ev, "lex.", 4) && strcmp (ev, "local.cleanup") && strncmp (ev, "ident.", 6))
+      truncating = 1;
+      vh_out ("ev-truncated");
+    }
+  if (truncating)
+    {
+      /* keep the end-of-compile events so that the oracle still sees them */
+      if (strncmp (ev, "lex.", 4) && strcmp (ev, "local.cleanup") && strncmp (ev, "ident.", 6) && strcmp (ev, "scr.destroy"))
         return;
     }
   if (!strcmp (ev, "ident.pre"))
@@ -153,6 +162,46 @@ static void c02_trace (const char *ev, long cursor, long size)
               before_local, before_sem);
       return;
     }
+  if (!strncmp (ev, "scr.", 4))
+    {
+      /* scratchpad: shadow stack of the starts of the strings on the pad (offsets into scratchblock) */
+      static long starts[4200];
+      static int nst;
+      unsigned char *base = scratch_end - SCRATCHPAD_SIZE;
+      long last = scr_last - base, tail = scr_tail - base;
+      if (!strcmp (ev, "scr.push"))
+        {
+          if (nst < 4200)
+            starts[nst++] = last;
+        }
+      else if (!strcmp (ev, "scr.join"))
+        {
+          if (nst > 0)
+            nst--;
+        }
+      else if (!strcmp (ev, "scr.large"))
+        nlarge++;
+      else if (!strcmp (ev, "scr.free_block"))
+        nlarge--;
+      else if (!strcmp (ev, "scr.destroy"))
+        nst = nlarge = 0;
+      else if (!strcmp (ev, "scr.after"))
+        {
+          while (nst > 0 && starts[nst - 1] > last)
+            nst--;
+        }
+      if (!strcmp (ev, "scr.free_last"))
+        {
+          /* how many strings below the top one are marked as freed (first byte 0): the walk back passes them */
+          int k = 0;
+          for (int i = nst - 2; i >= 0 && base[starts[i]] == 0; i--)
+            k++;
+          vh_out ("ev %s %ld %ld %ld %d %d", ev, tail, size, last, nlarge, k);
+        }
+      else
+        vh_out ("ev %s %ld %ld %ld %d", ev, tail, size, last, nlarge);	/* scr.mark passes the freed string, not the tail */
+      return;
+    }
   vh_out ("ev %s %ld %ld", ev, cursor, size);
   if (!strcmp (ev, "lex.end.if"))
     {
@@ -162,6 +211,8 @@ static void c02_trace (const char *ev, long cursor, long size)
                 (int) perm[i].ihe->dn.global_num, (int) perm[i].ihe->dn.class_num, (int) perm[i].ihe->dn.local_num);
       vh_out ("locals.end cur=%d max=%d name=%ld type=%ld", current_number_of_locals, max_num_locals,
               (long) (locals_ptr - locals), (long) (type_of_locals_ptr - type_of_locals));
+      vh_out ("scratch.end last=%ld tail=%ld large=%d", (long) (scr_last - (scratch_end - SCRATCHPAD_SIZE)),
+              (long) (scr_tail - (scratch_end - SCRATCHPAD_SIZE)), nlarge);
     }
 }
 
